@@ -623,6 +623,11 @@ func runC17(r *Run) {
 							shadow[cur] = []frame{{false}}
 						}
 						nPop++
+					case "setNil": // a name bound to nil in the top scope: it shadows the outer binding, in lookups and in the merged map
+						ops = append(ops, c17Op{kind: "set", key: "a", val: VNil()})
+						if top := shadow[cur][len(shadow[cur])-1]; top.isObj {
+							objModel["a"] = VNil()
+						}
 					case "setA", "setB":
 						k := map[string]string{"setA": "a", "setB": "b"}[a]
 						v := VStr(fmt.Sprintf("set-%s%d", k, i))
@@ -666,6 +671,15 @@ func runC17(r *Run) {
 	rec([]string{"pop"})
 	r.extra["exhaustive_histories_after_root_pop"] = count - r.extra["exhaustive_histories"].(int)
 	r.extra["exhaustive_max_len"] = maxLen
+	// (1c) names bound to nil in inner scopes
+	alphabet = []string{"pushNil", "pushObj", "setNil", "copy", "pop", "setA"}
+	maxLen = 3
+	if r.Thorough() {
+		maxLen = 4
+	}
+	before := count
+	rec(nil)
+	r.extra["exhaustive_histories_with_nil_bindings"] = count - before
 
 	// (2) random long histories with nested values and paths
 	nRand := 250
@@ -698,7 +712,11 @@ func runC17(r *Run) {
 			case 1:
 				ops = append(ops, c17Op{kind: "pop"})
 			case 2, 3:
-				ops = append(ops, c17Op{kind: "set", key: Pick(rr, names), val: c17Value(rr, 2)})
+				v := c17Value(rr, 2)
+				if rr.Chance(1, 6) {
+					v = VNil()
+				}
+				ops = append(ops, c17Op{kind: "set", key: Pick(rr, names), val: v})
 			case 4:
 				ops = append(ops, c17Op{kind: "lookup", key: Pick(rr, names)})
 			case 5:
